@@ -52,3 +52,49 @@ Definition pconsec (c : pcase) : bool :=
 
 Definition ptrace (c : pcase) :=
   model_trace (@Avg1DPend.pstep F1 (ttab (d_t (p_cfg c))) (dcfg (p_cfg c))) pobserve (Avg1DPend.pinit F1) (pops c).
+
+(* ---------------------------------------------------------------------- *)
+(* IntegratorLearner with non-committing asks: Model/Integrator.v driven as in
+   Run/IntegratorRun.v (same observations, same comparison, same partition
+   certificate), plus the operation ask(n, tell_pending=False), whose model is
+   BookkeepingIntegrator.ask_nc: the output of the committing ask, the state
+   handed back.  The harness records the verdicts / choices the real learner
+   made inside the rolled-back call and observes the real learner afterwards. *)
+From AV Require Import Model.Integrator Run.IntegratorRun.
+From AV Require Proofs.BookkeepingIntegrator.
+
+Inductive iop :=
+| IOp (o : Integrator.op float)
+| IAskNC (n : nat) (cs : list choice).
+
+Section IRun.
+  Variable xi : list (list float).
+  Variable repaired : bool.
+
+  Definition istep (s : st float) (o : iop) : st float * out float :=
+    match o with
+    | IOp o' => fstep xi repaired s o'
+    | IAskNC n cs => BookkeepingIntegrator.ask_nc float fnumeqb (fpoints xi) repaired PrimFloat.zero s n cs
+    end.
+
+  Definition icase := (float * float * nat * list (iop * eout * option obs))%type.
+
+  Fixpoint ifirst_mismatch (seen : bool) (s : st float) (k : nat) (l : list (iop * eout * option obs)) : option nat :=
+    match l with
+    | [] => None
+    | (o, eo, eb) :: l' =>
+        let '(s', out) := istep s o in
+        if out_eqb out eo && match eb with Some b => obs_eqb (observe s') b | None => true end &&
+           (halted s' || cert_ok seen s')
+        then ifirst_mismatch (seen || has_estimate s') s' (S k) l' else Some k
+    end.
+
+  Definition icheck (c : icase) : option nat :=
+    let '(lo, hi, maxiv, steps) := c in
+    if xi_ok xi then ifirst_mismatch false (finit xi repaired lo hi maxiv) 0 steps else Some 0.
+
+  (* how many non-committing asks of the case were made on a state with pending points *)
+  Definition inc_asks (c : icase) : nat :=
+    let '(_, _, _, steps) := c in
+    count_true (fun x => match fst (fst x) with IAskNC _ _ => true | IOp _ => false end) steps.
+End IRun.
